@@ -79,3 +79,86 @@ def framing_units(props, strict):
         label = '%s.construct[framing%s]' % (cq.split('.')[-1], ' asn4' if extra == [True] else '')
         out.append(Unit(label, qual, build, spec, kind='codec', props=props, verify_kw={'light': True, 'loop_rule': loop_rule}))
     return out
+
+
+# ================================================================ accumulation step contract (encoder for-loops)
+def acc_step_unit(name, qual, acc_var, make_elem, props, extra_args=()):
+    """for-loop rule on the real loop body of a list encoder: from an ARBITRARY accumulated octet string, one iteration on an
+    element appends exactly that element's encoding and keeps every octet accumulated before (so a list encodes to the
+    concatenation of its elements' encodings, by induction over the loop; T5).
+    make_elem(it) -> (element value, its reference encoding)"""
+    import ast
+    from pyvc.interp import _MISSING, PyExc, Cont, Brk
+    from pyvc.values import LoopCut
+    from pyvc.contracts import same_value
+
+    def rule(it, node, env, itval):
+        if not isinstance(node, ast.For) or acc_var not in env or getattr(it, '_step_fired', False):
+            return _MISSING
+        it._step_fired = True          # the outermost element loop only; inner loops run on the concrete element
+        p = it.p
+        pre = SBytes.fresh('acc')
+        p.assume(pre.len <= MAX_VALUE)
+        env[acc_var] = pre
+        elem, ref = it._step_elem
+        it.assign(node.target, elem, env)
+        tag = 'step@%d' % node.lineno
+        try:
+            it.run(node.body, env)
+        except (Cont, Brk):
+            pass
+        except PyExc as e:
+            p.prove('%s/valid-element-does-not-raise' % tag, z3.BoolVal(False), detail='raised %s' % e.val.clsname)
+            raise LoopCut()
+        exp = pre.concat(SBytes.of(ref))
+        g = []
+        if not same_value(exp, env[acc_var], g, '%s/appends-exactly-the-element-encoding' % tag):
+            p.prove('%s/appends-exactly-the-element-encoding' % tag, z3.BoolVal(False), detail='expected %r got %r' % (exp, env[acc_var]))
+        elif not g:
+            p.prove('%s/appends-exactly-the-element-encoding' % tag, z3.BoolVal(True))
+        for (w, t) in g:
+            p.prove(w, t)
+        raise LoopCut()
+
+    def build(it):
+        it.loop_rule = rule
+        elem, ref = make_elem(it)
+        it._step_elem = (elem, ref)
+        f = it.prog.func(qual)
+        recv = [f.cls] if f.kind == 'classmethod' else []
+        return [], recv + [[elem]] + list(extra_args), {}, None
+    return Unit(name, qual, build, (lambda c, *a: None), kind='step', props=tuple(props))
+
+
+def encoder_step_units(props):
+    """step contracts for the list encoders of C06 (values symbolic, one element of each kind)"""
+    from pyvc import strings as STR
+    from specs import S as SP
+    from .codec_units import sym_int
+    out = []
+
+    def community(it):
+        a, b = sym_int(it, 'c_hi', 0, 65535), sym_int(it, 'c_lo', 0, 65535)
+        return STR.concat([STR.dec(a), ':', STR.dec(b)]), SP.cat(SP.be(a, 2), SP.be(b, 2))
+    out.append(acc_step_unit('Community.construct[step]', A + 'community.Community.construct', 'community_hex', community, props))
+
+    def large(it):
+        a, b, c = (sym_int(it, n, 0, 2 ** 32 - 1) for n in ('lc_a', 'lc_b', 'lc_c'))
+        return STR.concat([STR.dec(a), ':', STR.dec(b), ':', STR.dec(c)]), SP.cat(SP.be(a, 4), SP.be(b, 4), SP.be(c, 4))
+    out.append(acc_step_unit('LargeCommunity.construct[step]', A + 'largecommunity.LargeCommunity.construct', 'large_community_hex', large, props))
+
+    def cluster(it):
+        ip = sym_int(it, 'cl_id', 0, 2 ** 32 - 1)
+        return STR.ip4(ip), SP.be(ip, 4)
+    out.append(acc_step_unit('ClusterList.construct[step]', A + 'clusterlist.ClusterList.construct', 'cluster_raw', cluster, props))
+
+    for asn4 in (False, True):
+        def segment(it, asn4=asn4):
+            w = 4 if asn4 else 2
+            st = it.p.concretize(sym_int(it, 'seg_type', 1, 4).t, what='segment type')
+            n = it.p.concretize(sym_int(it, 'seg_count', 0, 3).t, what='segment size')
+            asns = [sym_int(it, 'asn%d' % i, 0, 2 ** (8 * w) - 1) for i in range(n)]
+            return (st, asns), SP.cat(SP.be(st, 1), SP.be(n, 1), *[SP.be(x, w) for x in asns])
+        out.append(acc_step_unit('ASPath.construct[step%s]' % (' asn4' if asn4 else ''), A + 'aspath.ASPath.construct', 'as_path_raw',
+                                 segment, props, extra_args=(asn4,)))
+    return out
